@@ -270,7 +270,7 @@ def run(ctx):
             kf = "kf_c08_pair_alias" if has_mut else None
             if kf is None:
                 search_ok = False
-            ctx.report("search:%s:%s" % (v[0], json.dumps(tag)[:60]), "C08 fails on the real code (%s): %s" % (tag, v[0]),
+            ctx.report("search:%s:%s:%s" % (kf, v[0], json.dumps(tag)[:60]), "C08 fails on the real code (%s): %s" % (tag, v[0]),
                        {"kind": "search", "case": case, "expected": v[1], "observed": v[2], "what": v[0],
                         "failing_input_found": True}, kf_class=kf)
         if real["s500"] == "1":
